@@ -424,6 +424,42 @@ def r04_4(ctx, fx):
             ctx.ob("R04.4", "poll_flush/unwritten-remainder-is-kept", ok, site=fn.site(sw), cfg=fx.cfg, detail="a partially written frame must not be dropped")
 
 
+def r04_6(ctx, fx):
+    """receiver, fixed-size frames: the Identity arm of Stream::poll_next yields the whole buffer of payload_size bytes - only once
+    `offset == payload_size`, and anything that shortens the yielded buffer is sized by the codec's payload_size, not by the count of
+    the last read (a frame that arrives in several reads would otherwise be delivered truncated)"""
+    fn = None
+    for k in fx.find(r"substream::Substream as futures::Stream>::poll_next$"):
+        fn = fx.fn(k)
+    if fn is None:
+        ctx.anchor("R04.6", "Stream::poll_next", 0, 1, cfg=fx.cfg)
+        return
+    csw = [sw for sw in fn.discr_switches() if sw[2] and sw[2].endswith("ProtocolCodec")]
+    if not csw:
+        ctx.anchor("R04.6", "poll_next: match on codec", 0, 1, cfg=fx.cfg)
+        return
+    arm = arm_nodes(fn, csw[0], "Identity") - arm_nodes(fn, csw[0], "UnsignedVarint")
+    takes = [c for c in fn.calls(r"mem::replace$") if c.node in arm and ".read_buffer" in fn.origin(c.args[0])]
+    ctx.anchor("R04.6", "poll_next/Identity: read_buffer taken out", len(takes), 1, cfg=fx.cfg)
+    for t in takes:
+        holders = fn.copies_of(t.dest[0]) | {t.dest[0]}
+        for c in fn.calls(r"BytesMut::(truncate|split_to|split_off|resize|advance|set_len|clear)$|Buf::advance$"):
+            rl = ref_local(fn, c.args[0])
+            if c.node in arm and rl in holders:
+                k = bound_kind(fn, c.args[1]) if len(c.args) > 1 else None
+                ctx.ob("R04.6", "poll_next/Identity/%s-of-the-frame-sized-by-payload_size" % c.name.rsplit("::", 1)[-1], k == "identity", site=fn.site(c.node), cfg=fx.cfg,
+                       detail="argument origin %s" % ([fn.origin(a) for a in c.args[1:]]))
+        # yielded only when the offset reached payload_size
+        is_q = lambda f, o: re.search(r"\.offset$", f.origin(o)) is not None
+        is_b = lambda f, o: bound_kind(f, o) == "identity"
+        eq = {(sw, lab) for sw, lab, rel, cn in guards.edge_facts(fn, is_q, is_b) if rel == "=="}
+        ctx.ob("R04.6", "poll_next/Identity/frame-yielded-only-when-offset==payload_size", bool(eq) and t.node not in fn.reach([fn.entry], cut=eq), site=fn.site(t.node), cfg=fx.cfg)
+        # the offset advances by what was read
+        adv = [n for n, s_ in fn.assigns() if n in arm and "".join(str(x) for x in s_["lhs"][1:]).endswith(".offset") and s_["rv"]["r"] == "use" and fn.const_value(s_["rv"]["o"]) != 0]
+        ok = bool(adv) and all(any(x.endswith("ReadBuf::filled") for x in guards.rootstrs(fn, fn.stmt(n)["rv"]["o"])) for n in adv)
+        ctx.ob("R04.6", "poll_next/Identity/offset-advances-by-the-bytes-read", ok, site=fn.site(adv[0]) if adv else fn.site(t.node), cfg=fx.cfg)
+
+
 def r04_5(ctx, fx):
     for key, nm in ((SINK + "poll_ready", "poll_ready"), (SINK + "poll_flush", "poll_flush"), (STREAM, "poll_next"), (SINK + "poll_close", "poll_close")):
         fn = ctx.fn(fx, key, "R04.5")
@@ -442,6 +478,7 @@ def run(ctx):
             r04_3(ctx, fx)
         r04_2(ctx, fx)
         r04_4(ctx, fx)
+        r04_6(ctx, fx)
         if cfg == "default":
             r04_5(ctx, fx)
     ctx.assume("tokio write_all / write_all_chunks write the whole buffer or fail; the transports' poll_write registers the waker when Pending")
